@@ -890,7 +890,8 @@ class HistState:
     """what the harness remembers about a history (for the C06 / C15 oracles)"""
     def __init__(self):
         self.snaps = []        # per ordinal: dict(kind, flt, disk_after, config, adopted:set, touched:set(path)->target, sid)
-        self.owned = {}        # path -> target for files agentpack wrote and has not deleted
+        self.owned = {}        # path -> {target, root at write time, writing command}
+        self.owned_ever = []   # every (target, root, command kind) agentpack ever wrote under
         self.events = []       # (ordinal or None, kind)
 
 def run_hist_stream(ctx, nhist, depth, props, weights, stream='full_hist', tamper=False, kinds_seq=None, simple=False):
@@ -973,6 +974,7 @@ def run_hist_stream(ctx, nhist, depth, props, weights, stream='full_hist', tampe
                             br = best_root_py(R, d)
                             if br is not None:
                                 hs.owned[d['path']] = {'target': d['target'], 'root': br, 'kind': 'deploy'}
+                                hs.owned_ever.append({'target': d['target'], 'root': br, 'kind0': 'deploy'})
                             else:
                                 hs.owned.pop(d['path'], None)
                         hs.snaps.append({'kind': 'deploy', 'flt': flt, 'disk_after': after, 'config': copy.deepcopy((cw.opts, cw.claude, cw.modules)),
@@ -1013,6 +1015,7 @@ def run_hist_stream(ctx, nhist, depth, props, weights, stream='full_hist', tampe
                             br = best_root_py(R, {'target': t, 'path': p})
                             if br is not None:
                                 hs.owned[p] = {'target': t, 'root': br, 'kind': 'bootstrap'}
+                                hs.owned_ever.append({'target': t, 'root': br, 'kind0': 'bootstrap'})
                         hs.snaps.append({'kind': 'bootstrap', 'flt': 'bootstrap', 'disk_after': after, 'config': copy.deepcopy((cw.opts, cw.claude, cw.modules)),
                                          'adopted': {c['path'] for c in plan if c.get('update_kind') == 'adopt_update'},
                                          'touched': {c['path']: c['target'] for c in plan}, 'D': [{'target': t, 'path': p} for t, p, _ in Dsha], 'R': R})
@@ -1160,28 +1163,44 @@ def oracle_ledger(ctx, hs, cw, after, base, ids, rec):
         hs.tamper_seen = True
     if getattr(hs, 'tamper_seen', False):
         return      # the user rewrote/removed a manifest in this history: the records are no longer agentpack's alone
+    hs.lost = getattr(hs, 'lost', {})
+    for p in list(hs.lost):
+        if p not in after or p not in hs.owned:
+            hs.lost.pop(p)
     for p, o in sorted(hs.owned.items()):
         if p not in after:
             continue
         root = {'target': o['target'], 'root': o['root'], 'scan_extras': False}
         if (o['target'], p) in accepted_entries(after, [root], ids):
+            hs.lost.pop(p, None)
             continue
         mp = o['root'] + '/' + mf_name(o['target'])
         lw = hs.last_writer.get(mp)
-        cls = None
-        if o['kind'] == 'restore':
-            cls = 'K15c'
-        elif lw in ('bootstrap', 'deploy') and lw != o['kind']:
-            cls = 'K15a'
+        if p in hs.lost:
+            cls = hs.lost[p]          # it dropped out of the manifest at an earlier step: same cause
+        else:
+            cls = None
+            kinds_here = {x['kind0'] for x in hs.owned_ever if x['root'] == o['root'] and x['target'] == o['target']}
+            if o['kind'] == 'restore':
+                cls = 'K15c'
+            elif {'deploy', 'bootstrap'} <= kinds_here:
+                cls = 'K15a'      # a root shared by deploy and bootstrap: its manifest reflects one command's desired state only
+            hs.lost[p] = cls
         r2 = dict(rec, path=p, cls=cls, manifest_last_writer=lw, file_writer=o['kind'])
         if cls and ctx.is_known(cls):
             ctx.known_finding(cls, KNOWN_TEXT[cls])
         else:
             ctx.violation('a file agentpack wrote and has not deleted is not listed in its root\'s manifest: %s' % p, r2)
-    roots_all = relR(cw.roots(None), base)
-    for t, p in sorted(accepted_entries(after, roots_all, ids)):
-        if p in after and p not in hs.owned:
-            ctx.violation('a manifest lists a file agentpack neither wrote nor found identical: %s' % p, dict(rec, path=p))
+    # converse (C15_listed_is_desired): a manifest (re)written by this deploy / bootstrap lists only files of its desired state
+    if kind in ('deploy', 'bootstrap') and hs.snaps and rec.get('plan') is not None:
+        Dk = {(d['target'], d['path']) for d in hs.snaps[-1]['D']} if (kind == 'bootstrap' or rec.get('outcome') == 0) else None
+        if Dk is not None:
+            for r in hs.snaps[-1]['R']:
+                mp = r['root'] + '/' + mf_name(r['target'])
+                if before.get(mp) != after.get(mp) and mp in after:
+                    for t, q in sorted(accepted_entries(after, [r], ids)):
+                        if (t, q) not in Dk:
+                            ctx.violation('a manifest written by this %s lists a file outside its desired state: %s' % (kind, q), dict(rec, path=q))
 
 def hs_manifest_tampered(hs, rec):
     t = getattr(hs, 'tamper_seen', False)
